@@ -75,4 +75,58 @@ theorem loop_progress (v : List Byte) (off : Nat) (as : List Ans) :
       simp only [hk', if_false]
       exact ih _ _ (fun a ha => hall a (by simp [ha])) (by simp at hl; omega)
 
+/-! read loop -/
+
+theorem partialR_zero (buf0 f : File) (off : Nat) : PartialR buf0 f off 0 buf0 := by
+  intro j
+  rw [if_neg (by omega)]
+
+theorem partialR_step (buf0 f : File) (off n k : Nat) (cur : File)
+    (h : PartialR buf0 f off n cur) : PartialR buf0 f off (n + k) (preadAt cur f off n k) := by
+  intro j
+  unfold preadAt
+  rw [h j]
+  by_cases h1 : n ≤ j ∧ j < n + k
+  · have : j < n + k := by omega
+    simp [h1, this]
+  · by_cases h2 : j < n
+    · have : j < n + k := by omega
+      simp [h1, h2, this]
+    · have : ¬ (j < n + k) := by omega
+      simp [h1, h2, this]
+
+theorem read_inv (len off : Nat) (f buf0 : File) (as : List Ans) :
+    ∀ (cur : File) (n : Nat), n ≤ len → PartialR buf0 f off n cur → ∀ out, readLoop len off f cur n as = some out →
+      (∃ m, m ≤ len ∧ PartialR buf0 f off m out.file) ∧ (∀ g, out = .ok g → PartialR buf0 f off len g) := by
+  induction as with
+  | nil =>
+    intro cur n hn hp out h
+    unfold readLoop at h
+    by_cases hd : len ≤ n
+    · simp [hd] at h; subst h
+      have : n = len := by omega
+      subst this
+      exact ⟨⟨_, hn, hp⟩, fun g hg => by cases hg; exact hp⟩
+    · simp [hd] at h
+  | cons a rest ih =>
+    intro cur n hn hp out h
+    unfold readLoop at h
+    by_cases hd : len ≤ n
+    · simp [hd] at h; subst h
+      have : n = len := by omega
+      subst this
+      exact ⟨⟨_, hn, hp⟩, fun g hg => by cases hg; exact hp⟩
+    · simp only [hd, if_false] at h
+      cases a with
+      | err =>
+        simp at h; subst h
+        exact ⟨⟨n, hn, hp⟩, fun g hg => by cases hg⟩
+      | wrote k =>
+        simp only at h
+        by_cases hk : min k (len - n) = 0
+        · simp [hk] at h; subst h
+          exact ⟨⟨n, hn, hp⟩, fun g hg => by cases hg⟩
+        · simp only [hk, if_false] at h
+          exact ih _ _ (by omega) (partialR_step buf0 f off n _ cur hp) out h
+
 end GooseVerif.Model.ShortWrite
